@@ -154,7 +154,7 @@ OnEnter(ev, idx) ==
    /\ stk' = Append(IF stk = <<>> THEN stk
                     ELSE [stk EXCEPT ![Len(stk)] = [Top EXCEPT !.kids = Top.kids + 1,
                                                                !.dlg = IF Top.r = ev.r /\ Top.ph = 0 /\ Top.kids = 0 THEN 1 ELSE Top.dlg]], [r |-> ev.r, A |-> ev.A, M |-> ev.M, b |-> ev.b, l |-> ev.l, c |-> ev.c, o |-> ev.o,
-                          e |-> ev.e, mx |-> ev.o, ph |-> 0, na |-> 0, ni |-> 0, iv |-> -1, av |-> -1, sid |-> 0, sst |-> 0, sss |-> 0, kids |-> 0, dlg |-> 0, tr |-> <<>>, af |-> ev.af, cf |-> ev.cf,
+                          e |-> ev.e, mx |-> ev.o, ph |-> 0, na |-> 0, ni |-> 0, iv |-> -1, av |-> -1, sid |-> 0, sst |-> 0, sss |-> 0, kids |-> 0, dlg |-> 0, tr |-> <<>>, af |-> ev.af, cf |-> ev.cf, ph3 |-> 0,
                           d |-> ev.d, s |-> ev.s])
    /\ verd' = VCap(verd \o PosV(ev, idx, ev.r) \o BoundV(ev, idx, ev.r)
         \* C13: apply mode, action family, control and innermost state of a sub-rule are what the enclosing rule prescribes
@@ -299,7 +299,7 @@ OnState(ev, idx) ==
 (* comparison of an observed outcome with the denotation (C01, C09, C05, ...) *)
 \* C07: with a buffer too small for the look-ahead the grammar performs, std::overflow_error (exception class 5) is
 \* the one permitted deviation; "too small" = less than the whole input plus the largest amount a corpus rule requests
-Incremental == cs.cls \in {2, 7, 8}
+Incremental == cs.cls \in {2, 7, 8, 9}
 OverflowTolerated == cs.cls = 2 /\ cs.bmax < Len(cs.w) + 8
 XClassOf(who) == IF who > 0 \/ who \in ({D!XActParseError} \cup D!XLimits) THEN 1 ELSE IF who = D!XActForeign THEN 3 ELSE 0
 
@@ -315,7 +315,7 @@ DenV(f, idx, v, o, x) ==   \* v: 1 success, 0 failure, 2 exception of class x
                     ELSE IF cs.cls >= 2 THEN "C07"       \* the same case through a memory input is validated separately
                     ELSE IF cs.xt = 3 THEN "C03"         \* slice: the bytes behind the logical end influenced the outcome
                     ELSE IF MiOf(cs.cf) > 0 THEN "C05"   \* must_if: which local failures become global ones
-                    ELSE IF cs.xt = 4 THEN "C08"         \* coverage run: the state_control adapter or the coverage state interfered
+                    ELSE IF cs.xt \in {4, 5} THEN "C08"    \* coverage / tracer run: the state_control adapter or the coverage state interfered
                     ELSE PropOfRule(f.r)
         IN If(~agree, V(prop, idx, f.r, "outcome differs from the denotation", <<v, o, x>>, d))
 
@@ -366,6 +366,8 @@ OnExit(ev, idx) ==
                 \o If(OpOf(f.r) \in {"apply", "apply0"} /\ f.A = 1 /\ f.ni # D!IaCalled(Nodes[f.r].p, 0, OpOf(f.r) = "apply0"),
                       V("C04", idx, f.r, "not exactly the listed actions up to the first false were called", f.ni, 0))
                 \o If(f.iv = 2 /\ (ev.v # 0 \/ ev.o # f.o), V("C04", idx, f.r, "listed action returned false but the match was not turned into a failure at its start", ev.v, ev.o))
+                \* control_action (family 8): the action-side end hook that corresponds to the result
+                \o If(f.af = 8 /\ f.ph3 # (IF ev.v = 1 THEN 3 ELSE 4), V("C08", idx, f.r, "control_action: no success / failure hook matching the result", f.ph3, ev.v))
                 \* C18
                 \o If(ev.e # f.e, V("C18", idx, f.r, "logical end of the input not restored", f.e, ev.e))
                 \o If(ev.d # f.d, V("C18", idx, f.r, "depth counter not restored", f.d, ev.d))
@@ -400,6 +402,7 @@ OnExc(ev, idx) ==
                 \o If(~fuel /\ vis /\ ~HasUnwind(f.cf) /\ f.ph \notin {1, 2} /\ ~(FrameLim(f) # 0 /\ f.ph \in {0, 3}),
                       V("C08", idx, f.r, "exception passed through after an end hook", f.ph, 0))
                 \o If(~fuel /\ ~vis /\ f.ph # 0, V("C08", idx, f.r, "hooks fired for a disabled rule", f.ph, 0))
+                \o If(~fuel /\ f.af = 8 /\ f.ph3 # 5, V("C08", idx, f.r, "control_action: exception passed without the unwind hook of the action", f.ph3, 0))
                 \o If(~fuel /\ ScopeKind(f) > 0 /\ f.sid > 0 /\ (f.sst # 3 \/ f.sss # (IF ScopeKind(f) = 1 /\ f.na > 0 THEN 1 ELSE 0)), V("C13", idx, f.r, "exception: state not destroyed before unwinding, or success called", f.sst, f.sss))
                 \o If(ev.e # f.e, V("C18", idx, f.r, "logical end of the input not restored", f.e, ev.e))
                 \o If(ev.d # f.d, V("C18", idx, f.r, "depth counter not restored", f.d, ev.d))
@@ -434,7 +437,7 @@ OnEnd(ev, idx) ==
        perr == ev.v = 2 /\ ev.x = 1
    IN /\ verd' = VCap(verd
            \o If(stk # <<>>, V("C08", idx, 0, "run ended with open invocations", Len(stk), 0))
-           \o If(~skip /\ ~agree, V(IF d.k = "X" /\ d.who \in D!XLimits THEN "C18" ELSE IF cs.cls >= 2 THEN "C07" ELSE IF cs.xt = 3 THEN "C03" ELSE IF MiOf(cs.cf) > 0 THEN "C05" ELSE IF cs.xt = 4 THEN "C08" ELSE PropOfRule(cs.g), idx, cs.g, "result of the run differs from the denotation", <<ev.v, ev.o, ev.x>>, d))
+           \o If(~skip /\ ~agree, V(IF d.k = "X" /\ d.who \in D!XLimits THEN "C18" ELSE IF cs.cls >= 2 THEN "C07" ELSE IF cs.xt = 3 THEN "C03" ELSE IF MiOf(cs.cf) > 0 THEN "C05" ELSE IF cs.xt \in {4, 5} THEN "C08" ELSE PropOfRule(cs.g), idx, cs.g, "result of the run differs from the denotation", <<ev.v, ev.o, ev.x>>, d))
            \o If(~skip /\ agree /\ perr /\ d.k = "X" /\ ev.msg # MsgOf(d.who, d.m),
                  V("C05", idx, d.who, "parse_error does not name the first failing must/raise rule", ev.msg, MsgOf(d.who, d.m)))
            \o If(~skip /\ agree /\ perr /\ d.k = "X" /\ ev.nested # d.n,
@@ -475,6 +478,28 @@ OnTree(ev, idx) ==
         )
    /\ cnt' = Bump(Bump(cnt, "tree"), "ev")
    /\ UNCHANGED <<stk, cs, lastx>>
+
+(* cst csu cfa cuw: the action-side hooks of contrib/control_action.hpp (action family 8, C08).  Action< Rule >::match takes
+   over in normal< Rule >::match for every rule, whatever its control's visibility and the apply mode: start before the
+   rule's attempt (and its control's start hook), then exactly one of success / failure after match() returned (after the
+   control's success / failure hook) or unwind when an exception passes (after the control's unwind hook). *)
+OnCa(ev, idx) ==
+   IF stk = <<>> \/ Top.r # ev.r
+   THEN /\ verd' = VCap(Append(verd, V("C08", idx, ev.r, "control_action hook for a rule that is not the innermost open invocation", ev.k, 0)))
+        /\ cnt' = Bump(cnt, "ev")
+        /\ UNCHANGED <<stk, cs, lastx>>
+   ELSE LET f == Top
+            vis == VisibleF(f)
+            ok == CASE ev.k = "cst" -> f.ph3 = 0 /\ f.ph = 0 /\ f.kids = 0 /\ ev.o = f.o
+                    [] ev.k = "csu" -> f.ph3 = 1 /\ (IF vis THEN f.ph = 3 ELSE f.ph = 0)
+                    [] ev.k = "cfa" -> f.ph3 = 1 /\ (IF vis THEN f.ph = 4 ELSE f.ph = 0)
+                    [] ev.k = "cuw" -> f.ph3 = 1 /\ (IF vis /\ HasUnwind(f.cf) THEN f.ph = 5 ELSE TRUE)
+        IN /\ stk' = [stk EXCEPT ![Len(stk)] = [f EXCEPT !.ph3 = CASE ev.k = "cst" -> 1 [] ev.k = "csu" -> 3 [] ev.k = "cfa" -> 4 [] OTHER -> 5]]
+           /\ verd' = VCap(verd \o If(f.af # 8, V("C08", idx, ev.r, "control_action hook without a control_action", ev.k, f.af))
+                                \o If(~ok, V("C08", idx, ev.r, "control_action hook out of order", ev.k, <<f.ph3, f.ph>>))
+                                \o PosV(ev, idx, ev.r))
+           /\ cnt' = Bump(Bump(cnt, "hook"), "ev")
+           /\ UNCHANGED <<cs, lastx>>
 
 (* cov: what pegtl::coverage< Rule, Action, Control >() reported for the run that was just observed (C08).  The observer saw
    every invocation of every rule -- Control< Rule >::match is the seam, whatever the control's visibility -- so it knows
@@ -526,6 +551,7 @@ Step(ev, idx) ==
      [] ev.k = "end"  -> OnEnd(ev, idx)
      [] ev.k = "tree" -> OnTree(ev, idx)
      [] ev.k = "cov"  -> OnCov(ev, idx)
+     [] ev.k \in {"cst", "csu", "cfa", "cuw"} -> OnCa(ev, idx)
      [] OTHER         -> OnOther(ev, idx)
 
 =============================================================================
